@@ -3,6 +3,7 @@ package e2e
 import (
 	"fmt"
 	"math/rand"
+	"os"
 	"sync/atomic"
 	"time"
 
@@ -330,7 +331,7 @@ func GenScenario(r *rand.Rand, family string, idx int, o Opt) Scenario {
 }
 
 // StopOverlapGate returns the vhook function for the family stop-while-forwarding. Before the stop the forwarding client is
-// slowed after every send, so that the in-memory window fills. From the moment the buffer starts its shutdown save
+// slowed after every send and kept a few chunks behind the producers, so that the in-memory window holds chunks at the stop. From the moment the buffer starts its shutdown save
 // (buffer.feeder.beforeSave) every file write is slowed, and the goroutine that aborts the client's connection on the stop
 // signal is held (worker.stop.beforeAbort) until the save has written two files and the client has completed two more sends,
 // or maxHold has passed: the overlap of "buffer saves the window" and "client still forwards from the window", which the
@@ -338,17 +339,30 @@ func GenScenario(r *rand.Rand, family string, idx int, o Opt) Scenario {
 // client stops reading once the stop is requested, the hold simply runs out and nothing is forwarded after the save began).
 func StopOverlapGate(perSend, perWrite, maxHold time.Duration) (hook func(point string), overlapped func() bool, sentAfterStop func() int64, disable func()) {
 	var beforeSave, off atomic.Bool
-	var saves, sentAfter atomic.Int64
+	var saves, sentAfter, accepted, sent atomic.Int64
+	const backlog, maxWait = 8, 40 * time.Millisecond
+	dbg := os.Getenv("VERIF_DEBUG") != ""
 	return func(point string) {
 			if off.Load() { // later generations run unperturbed and are not counted
 				return
 			}
+			if dbg {
+				fmt.Fprintf(os.Stderr, "DEBUG gate %s %s saves=%d sentAfter=%d\n", time.Now().Format("05.000000"), point, saves.Load(), sentAfter.Load())
+			}
 			switch point {
+			case "buffer.accept.afterDecision":
+				accepted.Add(1)
 			case "session.send.afterSend":
 				if beforeSave.Load() {
 					sentAfter.Add(1)
 				} else {
+					// slower than the producers whatever their speed on this machine: besides the fixed pause, the client stays
+					// `backlog` chunks behind what the buffer has accepted (bounded wait; the shutdown save releases it)
+					sent.Add(1)
 					time.Sleep(perSend)
+					for dl := time.Now().Add(maxWait); !beforeSave.Load() && accepted.Load()-sent.Load() < backlog && time.Now().Before(dl); {
+						time.Sleep(200 * time.Microsecond)
+					}
 				}
 			case "buffer.feeder.beforeSave":
 				beforeSave.Store(true)
